@@ -25,7 +25,13 @@ impl<'a> G<'a> {
                 Expr::Rd(!(self.untracked && r.chance(1, 5)), id)
             };
         }
-        match r.below(8) {
+        if self.untracked && depth >= 1 && self.r.chance(1, 6) {
+            // one untrack scope over a whole sub-expression (several reads, possibly nested memos)
+            let inner = self.expr(readable, depth - 1);
+            let inner2 = self.expr(readable, depth - 1);
+            return Expr::Unt(Box::new(untrack_all(&Expr::Add(Box::new(inner), Box::new(inner2)))));
+        }
+        match self.r.below(8) {
             0 | 1 | 2 => Expr::Add(Box::new(self.expr(readable, depth - 1)), Box::new(self.expr(readable, depth - 1))),
             3 => {
                 let k = *self.r.pick(&[0i64, 0, 1, 2, -1]);
@@ -49,7 +55,19 @@ fn has_ite(e: &Expr) -> bool {
         Expr::Ite(..) => true,
         Expr::Lit(_) | Expr::Rd(..) => false,
         Expr::Add(a, b) | Expr::Seq(a, b) => has_ite(a) || has_ite(b),
-        Expr::Mulc(_, a) | Expr::Wr(_, a) => has_ite(a),
+        Expr::Mulc(_, a) | Expr::Wr(_, a) | Expr::Unt(a) => has_ite(a),
+    }
+}
+
+fn untrack_all(e: &Expr) -> Expr {
+    match e {
+        Expr::Lit(n) => Expr::Lit(*n),
+        Expr::Rd(_, i) => Expr::Rd(false, *i),
+        Expr::Add(a, b) => Expr::Add(Box::new(untrack_all(a)), Box::new(untrack_all(b))),
+        Expr::Seq(a, b) => Expr::Seq(Box::new(untrack_all(a)), Box::new(untrack_all(b))),
+        Expr::Mulc(k, a) => Expr::Mulc(*k, Box::new(untrack_all(a))),
+        Expr::Ite(c, t, f) => Expr::Ite(Box::new(untrack_all(c)), Box::new(untrack_all(t)), Box::new(untrack_all(f))),
+        Expr::Wr(_, a) | Expr::Unt(a) => untrack_all(a),
     }
 }
 
@@ -61,7 +79,7 @@ fn reads(e: &Expr, out: &mut Vec<usize>) {
             reads(a, out);
             reads(b, out)
         }
-        Expr::Mulc(_, a) | Expr::Wr(_, a) => reads(a, out),
+        Expr::Mulc(_, a) | Expr::Wr(_, a) | Expr::Unt(a) => reads(a, out),
         Expr::Ite(c, t, e) => {
             reads(c, out);
             reads(t, out);
@@ -76,7 +94,7 @@ fn cutoff(e: &Expr) -> bool {
         Expr::Ite(_, t, f) => matches!((&**t, &**f), (Expr::Lit(_), Expr::Lit(_))) || cutoff(t) || cutoff(f),
         Expr::Lit(_) | Expr::Rd(..) => false,
         Expr::Add(a, b) | Expr::Seq(a, b) => cutoff(a) || cutoff(b),
-        Expr::Mulc(_, a) | Expr::Wr(_, a) => cutoff(a),
+        Expr::Mulc(_, a) | Expr::Wr(_, a) | Expr::Unt(a) => cutoff(a),
     }
 }
 
@@ -243,7 +261,11 @@ pub fn gen(mode: Mode, seed: u64, n: usize, path: &str, _tier: &str) -> std::io:
             let k = r.below(10);
             if lifecycle && r.chance(1, 6) {
                 let e = *r.pick(&effs);
-                ops.push(format!("{} {e}", *r.pick(&["pause", "resume", "resume", "dispose", "pause"])));
+                match r.below(7) {
+                    0 => ops.push("pauseall".into()),
+                    1 => ops.push("resumeall".into()),
+                    _ => ops.push(format!("{} {e}", *r.pick(&["pause", "resume", "resume", "dispose", "pause"]))),
+                }
                 continue;
             }
             if k < 4 {
@@ -271,6 +293,10 @@ pub fn gen(mode: Mode, seed: u64, n: usize, path: &str, _tier: &str) -> std::io:
         }
         writeln!(f, "case {i}:{}", tags.join(","))?;
         writeln!(f, "mode {}", if arena { "arena" } else { "arc" })?;
+        let wrap = if r.chance(1, 3) { r.range(1, 2) } else { 0 };
+        if wrap != 0 {
+            writeln!(f, "wrap {wrap}")?;
+        }
         write_prog(&mut f, &p)?;
         for o in ops {
             writeln!(f, "{o}")?;
